@@ -52,6 +52,7 @@ class World:
         self.values = {}                       # (node, b) -> list of row values
         self.calls = collections.Counter()     # (node, b) -> number of invocations
         self.consumed = []                     # batch indices in the order wait_next returned them
+        self.sim_args = {}
         self.batch_of = {}
         for b in range(max_batches + 1):
             self.batch_of[int(elfi.utils.get_sub_seed(seed, b))] = b
@@ -118,6 +119,7 @@ class World:
                 return w.col('u', w._b_from_rs(random_state), size[0])
 
         def sim(*params, batch_size=1, random_state=None, meta=None):
+            w.sim_args[meta['batch_index']] = params       # what the simulator was asked to simulate
             return w.col('y', meta['batch_index'], batch_size)
 
         def summ(y, meta=None):
